@@ -219,6 +219,40 @@ def _first_meta(items) -> str:
     return "plain"
 
 
+def _introspect_cause(case, name, want) -> str:
+    """root-cause attribution for a wrong introspection result, by experiment on simplified variants of the same pattern:
+    'optional-wrapper' (same lists are fine in the non-optional pattern), 'structure' (fails even with plain alphanumeric
+    items), else the responsible metacharacter ('|' first)."""
+    from openpectus.lang.exec.uod import RegexNamedArgumentParser
+
+    def ok(c) -> bool:
+        try:
+            p = RegexNamedArgumentParser(build_pattern(c))
+            if name == "units":
+                return p.get_units() == list(c["units"] or [])
+            if name == "exclusive":
+                return p.get_exclusive_options() == list(c["excl"] or [])
+            return p.get_additive_options() == list(c["add"] or [])
+        except Exception:
+            return False
+
+    plain = dict(case)
+    n = 0
+    for key in ("units", "excl", "add"):
+        if case.get(key):
+            plain[key] = ["x%d" % (n + i) for i in range(len(case[key]))]
+            n += len(case[key])
+    if not ok(plain):
+        if case["kind"] == "number" and case["optional"] and ok(dict(plain, optional=False)):
+            return "optional-wrapper"
+        return "structure"
+    if case["kind"] == "number" and case["optional"] and ok(dict(case, optional=False)):
+        return "optional-wrapper"
+    all_items = [x for key in ("units", "excl", "add") for x in (case.get(key) or [])]
+    return _first_meta(all_items)
+
+
+
 def near_miss_class(case) -> str:
     """root-cause oriented class of a candidate that is outside the liberal language (used in signatures)."""
     cand = case["cand"]
@@ -373,16 +407,7 @@ def check_case(case) -> list[Violation]:
                                      "get_%s on %r raised %s: %s" % (name, pattern, type(e).__name__, e), case))
                 continue
             if got != want:
-                cause = _first_meta(want)
-                if kind == "number" and case["optional"] and cause != "|":
-                    # root cause attribution: does the same list survive in the non-optional pattern?
-                    plain = RegexNamedArgumentParser(build_pattern(dict(case, optional=False)))
-                    try:
-                        if plain.get_units() == want:
-                            cause = "optional-wrapper"
-                    except Exception:
-                        pass
-                out.append(Violation("introspect:%s:%s" % (name, cause),
+                out.append(Violation("introspect:%s:%s" % (name, _introspect_cause(case, name, want)),
                                      "pattern %r built from %s=%r reports %r" % (pattern, name, want, got), case))
         for name, fn in empties:
             try:
